@@ -23,11 +23,11 @@ every production `p : A → α`, every `u` with `α ⇒* u` and every `v` derive
 * `tablesExactB_sound` — from the executable check `tablesExactB T fuel`, which runs `eval` on
   every tuple of the verified reference computation `firstK_lfp`/`followK_lfp` (C06).
 
-No left-recursion hypothesis is needed: the fuel bound is the size of the derivation (each `Yield`
-constructor is one or two loop iterations), and a left-recursive grammar simply cannot satisfy
-`TablesExact` together with productivity. No hypothesis on token types either (inside `llRun` the
-bottom of the parser stack is the end-of-production marker of the start production, so
-`input_accepted` never fires early). `maxDepth = none` is necessary (a depth limit may reject a
+No left-recursion hypothesis is needed: the fuel bound is the size of the derivation (one loop
+iteration per token, two per production application: `ll_complete_explicit`), and a left-recursive
+grammar simply cannot satisfy `TablesExact` together with productivity. No hypothesis on token
+types either (inside `llRun` the bottom of the parser stack is the end-of-production marker of the
+start production, so `input_accepted` never fires early). `maxDepth = none` is necessary (a depth limit may reject a
 sentence, C20).
 
 Proof outline (`Proofs/LLComplete.lean`): `DS_of_yield` — induction on the derivation `Yield`,
@@ -53,6 +53,18 @@ theorem ll_complete_fuel (T : LLTables) (hExact : TablesExact T) (o : Opts) (tok
     (ho : o.maxDepth = none) (hw : Lang (gOf T) (sigTypes toks)) :
     ∃ n, ∀ fuel, n < fuel → (llRun T o fuel toks).res = .ok :=
   llRun_complete T hExact o ho toks hw
+
+/-- **Explicit fuel**: a sentence `w` with a derivation tree of `m` production applications
+    (`YieldN`, the sized form of `Yield`; `Yield.sized` gives some `m` for every sentence) is accepted
+    with fuel `|w| + 2·m` (and any larger fuel); the run then makes exactly `|w| + 2·m − 1` loop
+    iterations and calls exactly `m` semantic actions. -/
+theorem ll_complete_explicit (T : LLTables) (hExact : TablesExact T) (o : Opts) (toks : List MTok)
+    (ho : o.maxDepth = none) (m : Nat) (hw : YieldN (gOf T) m [.n T.start] (sigTypes toks))
+    (fuel : Nat) (hf : (sigTypes toks).length + 2 * m ≤ fuel) :
+    (llRun T o fuel toks).res = .ok ∧
+    (llRun T o fuel toks).steps + 1 = (sigTypes toks).length + 2 * m ∧
+    (llRun T o fuel toks).actions.length = m :=
+  llRun_complete_sized T hExact o ho toks m hw fuel hf
 
 /-- The statement recorded in `Props/C01.lean` holds under `TablesExact`. -/
 theorem llComplete_of_exact (T : LLTables) (hExact : TablesExact T) : LLComplete T :=
@@ -90,6 +102,19 @@ theorem exT_exact : TablesExact exT := tablesExactB_sound exT 10 (by decide)
 example (l : List Nat) (o : Opts) (ho : o.maxDepth = none) :
     (∃ fuel, (llRun exT o fuel (exToks l)).res = .ok) ↔ Lang (gOf exT) (sigTypes (exToks l)) :=
   ll_accepts_iff exT (tablesSoundB_sound exT (by decide)) exT_exact o _ ho
+
+/-- The set-level premise is satisfiable too: `exT`'s automata accept exactly the reference
+    strong-LL(k) lookahead sets (decided by the verified `setsExactB`), and `tablesExact_of_sets`
+    applies. -/
+theorem exT_setsExact : SetsExact exT := setsExactB_sound exT 10 2 (by decide)
+example : TablesExact exT := tablesExact_of_sets exT exT_setsExact
+
+/-- The fuel bound `|w| + 2·m` is tight: `a b b c` has 4 tokens and a derivation with 5 production
+    applications; fuel 14 succeeds after 13 iterations with 5 actions, fuel 13 does not. -/
+example : (llRun exT ⟨false, false, none⟩ 14 (exToks [5, 6, 6, 7])).res = .ok ∧
+    (llRun exT ⟨false, false, none⟩ 14 (exToks [5, 6, 6, 7])).steps = 13 ∧
+    (llRun exT ⟨false, false, none⟩ 14 (exToks [5, 6, 6, 7])).actions.length = 5 ∧
+    (llRun exT ⟨false, false, none⟩ 13 (exToks [5, 6, 6, 7])).res = .fuel := by decide
 
 def exTBad : LLTables :=
   { exT with dfas := [⟨0, [], 0⟩, ⟨-1, [⟨0, 0, 2, 2⟩, ⟨0, 7, 2, 2⟩], 1⟩, ⟨-1, [⟨0, 0, 2, 4⟩, ⟨0, 7, 1, 3⟩], 1⟩] }
